@@ -85,14 +85,17 @@ def KidsSkel (f : Cls → List Node → Except PyErr (List Node)) : Prop :=
 /-- a pass commutes with `skel` (with the same fuel: `skel` does not deepen the tree) -/
 def PassSkel (p : Pass) : Prop := ∀ fuel, KidsSkel (p fuel)
 
-theorem mapGroups_skel {elig : Node → Bool} {f : Cls → List Node → Except PyErr (List Node)}
-    (helig : ∀ k, elig k.skel = elig k) (hf : KidsSkel f) :
-    ∀ ks r, mapGroups elig f ks = .ok r → mapGroups elig f (skelL ks) = .ok (skelL r) := by
+/-- the recursion into the group children, `f` commuting with `skel` on the children it is applied to -/
+theorem mapGroups_skel_on {elig : Node → Bool} {f : Cls → List Node → Except PyErr (List Node)}
+    (helig : ∀ k, elig k.skel = elig k) :
+    ∀ ks r, (∀ c kids r', Node.grp c kids ∈ ks → f c kids = .ok r' → f c (skelL kids) = .ok (skelL r')) →
+      mapGroups elig f ks = .ok r → mapGroups elig f (skelL ks) = .ok (skelL r) := by
   intro ks
   induction ks with
-  | nil => intro r h; simp [mapGroups] at h; subst h; simp [mapGroups]
+  | nil => intro r _ h; simp [mapGroups] at h; subst h; simp [mapGroups]
   | cons k rest ih =>
-    intro r h
+    intro r hf h
+    have ih := fun r hr => ih r (fun c kids r' hm => hf c kids r' (List.mem_cons_of_mem _ hm)) hr
     cases k with
     | tok tt v =>
       simp only [mapGroups] at h
@@ -125,7 +128,7 @@ theorem mapGroups_skel {elig : Node → Bool} {f : Cls → List Node → Except 
           | ok rest' =>
             simp only [hr, Except.ok.injEq] at h
             subst h
-            rw [hf _ _ _ hk, ih _ hr, skelL_cons_nws (hw' kids')]
+            rw [hf _ _ _ List.mem_cons_self hk, ih _ hr, skelL_cons_nws (hw' kids')]
             simp
       · rw [if_neg hel] at h ⊢
         cases hr : mapGroups elig f rest with
@@ -135,6 +138,37 @@ theorem mapGroups_skel {elig : Node → Bool} {f : Cls → List Node → Except 
           subst h
           rw [ih _ hr, skelL_cons_nws (hw' kids)]
           simp
+
+theorem mapGroups_skel {elig : Node → Bool} {f : Cls → List Node → Except PyErr (List Node)}
+    (helig : ∀ k, elig k.skel = elig k) (hf : KidsSkel f) :
+    ∀ ks r, mapGroups elig f ks = .ok r → mapGroups elig f (skelL ks) = .ok (skelL r) :=
+  fun ks r h => mapGroups_skel_on helig ks r (fun c kids r' _ hk => hf c kids r' hk) h
+
+/-- `f` commutes with `skel` on the child lists satisfying `P` -/
+def KidsSkelOn (P : Cls → List Node → Prop) (f : Cls → List Node → Except PyErr (List Node)) : Prop :=
+  ∀ c ks r, P c ks → f c ks = .ok r → f c (skelL ks) = .ok (skelL r)
+
+/-- `@recurse`: `P` is inherited by the group children, and gives `Q` at a level once its children are processed -/
+theorem recursePass_skel_on {skip : List Cls} {body : Cls → List Node → Except PyErr (List Node)}
+    {P Q : Cls → List Node → Prop}
+    (hher : ∀ c ks, P c ks → ∀ c' kids, Node.grp c' kids ∈ ks → P c' kids)
+    (htr : ∀ fuel c ks ks1, P c ks →
+      mapGroups (fun k => !k.isInstAny skip) (recursePass skip body fuel) ks = .ok ks1 → Q c ks1)
+    (hb : ∀ c ks r, Q c ks → body c ks = .ok r → body c (skelL ks) = .ok (skelL r)) :
+    ∀ fuel, KidsSkelOn P (recursePass skip body fuel) := by
+  intro fuel
+  induction fuel with
+  | zero => intro c ks r _ h; simp [recursePass] at h
+  | succ n ih =>
+    intro c ks r hP h
+    simp only [recursePass] at h ⊢
+    cases hm : mapGroups (fun k => !k.isInstAny skip) (recursePass skip body n) ks with
+    | error e => simp [hm] at h
+    | ok ks1 =>
+      simp only [hm] at h
+      rw [mapGroups_skel_on (by intro k; simp) _ _
+        (fun c' kids r' hmem hk => ih c' kids r' (hher c ks hP c' kids hmem) hk) hm]
+      exact hb _ _ _ (htr n c ks ks1 hP hm) h
 
 theorem recursePass_skel {skip : List Cls} {body : Cls → List Node → Except PyErr (List Node)} (hb : KidsSkel body) :
     PassSkel (recursePass skip body) := by
